@@ -64,6 +64,7 @@ class Generated:
         self.regions = []    # (first_line, last_line, piece_label, kind)
         self.pieces = []     # meta dicts
         self.literals = {}
+        self.lost = []       # (block label, message, obligation tags) of blocks whose anchors were lost
 
     def emit(self, text, region=None):
         first = len(self.lines) + 1
@@ -447,7 +448,24 @@ def generate(repo, template_text, variables=None):
         if m:
             d, rest = m.group(1), m.group(2).strip()
             if d == 'end':
-                {'item': _gen_item, 'slice': _gen_slice}[blk['type']](repo, blk, gen)
+                try:
+                    {'item': _gen_item, 'slice': _gen_slice}[blk['type']](repo, blk, gen)
+                except LostAnchor as e:
+                    # this block cannot be extracted: its obligations are undecided, the rest of the unit goes on
+                    # (declarations -- struct/enum/const items -- are needed by everything: re-raise)
+                    a_ = blk['args']
+                    if blk['type'] == 'item' and 'fn' not in a_:
+                        raise
+                    tags = []
+                    for key in ('spec', 'header', 'prologue', 'epilogue'):
+                        for ln_ in blk.get(key, []) or []:
+                            mm = TAG.search(ln_)
+                            if mm: tags.append(mm.group(1))
+                    for _, _, lines_ in blk.get('anchored', []):
+                        for ln_ in lines_:
+                            mm = TAG.search(ln_)
+                            if mm: tags.append(mm.group(1))
+                    gen.lost.append((a_.get('name') or a_.get('fn'), str(e), sorted(set(tags))))
                 blk = None
             elif d in ('spec', 'prologue', 'epilogue', 'header', 'const_ensures'):
                 blk[d] = []
